@@ -1,7 +1,319 @@
-//! Further operations
-use serde_json::Value;
+//! Formatting (C04, C16): every renderer, on values and references, with precision and flags.
+//! Flag strings: [[fill]align][+][0]; width and precision are runtime parameters.
+use std::fmt;
+use std::str::FromStr;
+
+use bigdecimal::BigDecimal;
+use serde_json::{json, Value};
+
+use crate::wire::*;
+
+pub const FLAG_NAMES: [&str; 36] = ["", "0", "+", "+0", "<", "<0", "<+", "<+0", "^", "^0", "^+", "^+0", ">", ">0", ">+", ">+0", "*<", "*<0", "*<+", "*<+0", "*^", "*^0", "*^+", "*^+0", "*>", "*>0", "*>+", "*>+0", "0<", "0<0", "0<+", "0<+0", "#>", "#>0", "#>+", "#>+0"];
+
+fn fmt_w<T: fmt::Display + fmt::LowerExp + fmt::UpperExp>(flags: &str, x: &T, w: usize) -> String {
+    match flags {
+        "" => format!(concat!("{:", "", "w$}"), x, w = w),
+        "0" => format!(concat!("{:", "0", "w$}"), x, w = w),
+        "+" => format!(concat!("{:", "+", "w$}"), x, w = w),
+        "+0" => format!(concat!("{:", "+0", "w$}"), x, w = w),
+        "<" => format!(concat!("{:", "<", "w$}"), x, w = w),
+        "<0" => format!(concat!("{:", "<0", "w$}"), x, w = w),
+        "<+" => format!(concat!("{:", "<+", "w$}"), x, w = w),
+        "<+0" => format!(concat!("{:", "<+0", "w$}"), x, w = w),
+        "^" => format!(concat!("{:", "^", "w$}"), x, w = w),
+        "^0" => format!(concat!("{:", "^0", "w$}"), x, w = w),
+        "^+" => format!(concat!("{:", "^+", "w$}"), x, w = w),
+        "^+0" => format!(concat!("{:", "^+0", "w$}"), x, w = w),
+        ">" => format!(concat!("{:", ">", "w$}"), x, w = w),
+        ">0" => format!(concat!("{:", ">0", "w$}"), x, w = w),
+        ">+" => format!(concat!("{:", ">+", "w$}"), x, w = w),
+        ">+0" => format!(concat!("{:", ">+0", "w$}"), x, w = w),
+        "*<" => format!(concat!("{:", "*<", "w$}"), x, w = w),
+        "*<0" => format!(concat!("{:", "*<0", "w$}"), x, w = w),
+        "*<+" => format!(concat!("{:", "*<+", "w$}"), x, w = w),
+        "*<+0" => format!(concat!("{:", "*<+0", "w$}"), x, w = w),
+        "*^" => format!(concat!("{:", "*^", "w$}"), x, w = w),
+        "*^0" => format!(concat!("{:", "*^0", "w$}"), x, w = w),
+        "*^+" => format!(concat!("{:", "*^+", "w$}"), x, w = w),
+        "*^+0" => format!(concat!("{:", "*^+0", "w$}"), x, w = w),
+        "*>" => format!(concat!("{:", "*>", "w$}"), x, w = w),
+        "*>0" => format!(concat!("{:", "*>0", "w$}"), x, w = w),
+        "*>+" => format!(concat!("{:", "*>+", "w$}"), x, w = w),
+        "*>+0" => format!(concat!("{:", "*>+0", "w$}"), x, w = w),
+        "0<" => format!(concat!("{:", "0<", "w$}"), x, w = w),
+        "0<0" => format!(concat!("{:", "0<0", "w$}"), x, w = w),
+        "0<+" => format!(concat!("{:", "0<+", "w$}"), x, w = w),
+        "0<+0" => format!(concat!("{:", "0<+0", "w$}"), x, w = w),
+        "#>" => format!(concat!("{:", "#>", "w$}"), x, w = w),
+        "#>0" => format!(concat!("{:", "#>0", "w$}"), x, w = w),
+        "#>+" => format!(concat!("{:", "#>+", "w$}"), x, w = w),
+        "#>+0" => format!(concat!("{:", "#>+0", "w$}"), x, w = w),
+        _ => panic!("HARNESS: unknown format flags {}", flags),
+    }
+}
+fn fmt_wp<T: fmt::Display + fmt::LowerExp + fmt::UpperExp>(flags: &str, x: &T, w: usize, p: usize) -> String {
+    match flags {
+        "" => format!(concat!("{:", "", "w$.p$}"), x, w = w, p = p),
+        "0" => format!(concat!("{:", "0", "w$.p$}"), x, w = w, p = p),
+        "+" => format!(concat!("{:", "+", "w$.p$}"), x, w = w, p = p),
+        "+0" => format!(concat!("{:", "+0", "w$.p$}"), x, w = w, p = p),
+        "<" => format!(concat!("{:", "<", "w$.p$}"), x, w = w, p = p),
+        "<0" => format!(concat!("{:", "<0", "w$.p$}"), x, w = w, p = p),
+        "<+" => format!(concat!("{:", "<+", "w$.p$}"), x, w = w, p = p),
+        "<+0" => format!(concat!("{:", "<+0", "w$.p$}"), x, w = w, p = p),
+        "^" => format!(concat!("{:", "^", "w$.p$}"), x, w = w, p = p),
+        "^0" => format!(concat!("{:", "^0", "w$.p$}"), x, w = w, p = p),
+        "^+" => format!(concat!("{:", "^+", "w$.p$}"), x, w = w, p = p),
+        "^+0" => format!(concat!("{:", "^+0", "w$.p$}"), x, w = w, p = p),
+        ">" => format!(concat!("{:", ">", "w$.p$}"), x, w = w, p = p),
+        ">0" => format!(concat!("{:", ">0", "w$.p$}"), x, w = w, p = p),
+        ">+" => format!(concat!("{:", ">+", "w$.p$}"), x, w = w, p = p),
+        ">+0" => format!(concat!("{:", ">+0", "w$.p$}"), x, w = w, p = p),
+        "*<" => format!(concat!("{:", "*<", "w$.p$}"), x, w = w, p = p),
+        "*<0" => format!(concat!("{:", "*<0", "w$.p$}"), x, w = w, p = p),
+        "*<+" => format!(concat!("{:", "*<+", "w$.p$}"), x, w = w, p = p),
+        "*<+0" => format!(concat!("{:", "*<+0", "w$.p$}"), x, w = w, p = p),
+        "*^" => format!(concat!("{:", "*^", "w$.p$}"), x, w = w, p = p),
+        "*^0" => format!(concat!("{:", "*^0", "w$.p$}"), x, w = w, p = p),
+        "*^+" => format!(concat!("{:", "*^+", "w$.p$}"), x, w = w, p = p),
+        "*^+0" => format!(concat!("{:", "*^+0", "w$.p$}"), x, w = w, p = p),
+        "*>" => format!(concat!("{:", "*>", "w$.p$}"), x, w = w, p = p),
+        "*>0" => format!(concat!("{:", "*>0", "w$.p$}"), x, w = w, p = p),
+        "*>+" => format!(concat!("{:", "*>+", "w$.p$}"), x, w = w, p = p),
+        "*>+0" => format!(concat!("{:", "*>+0", "w$.p$}"), x, w = w, p = p),
+        "0<" => format!(concat!("{:", "0<", "w$.p$}"), x, w = w, p = p),
+        "0<0" => format!(concat!("{:", "0<0", "w$.p$}"), x, w = w, p = p),
+        "0<+" => format!(concat!("{:", "0<+", "w$.p$}"), x, w = w, p = p),
+        "0<+0" => format!(concat!("{:", "0<+0", "w$.p$}"), x, w = w, p = p),
+        "#>" => format!(concat!("{:", "#>", "w$.p$}"), x, w = w, p = p),
+        "#>0" => format!(concat!("{:", "#>0", "w$.p$}"), x, w = w, p = p),
+        "#>+" => format!(concat!("{:", "#>+", "w$.p$}"), x, w = w, p = p),
+        "#>+0" => format!(concat!("{:", "#>+0", "w$.p$}"), x, w = w, p = p),
+        _ => panic!("HARNESS: unknown format flags {}", flags),
+    }
+}
+fn fmt_we<T: fmt::Display + fmt::LowerExp + fmt::UpperExp>(flags: &str, x: &T, w: usize) -> String {
+    match flags {
+        "" => format!(concat!("{:", "", "w$e}"), x, w = w),
+        "0" => format!(concat!("{:", "0", "w$e}"), x, w = w),
+        "+" => format!(concat!("{:", "+", "w$e}"), x, w = w),
+        "+0" => format!(concat!("{:", "+0", "w$e}"), x, w = w),
+        "<" => format!(concat!("{:", "<", "w$e}"), x, w = w),
+        "<0" => format!(concat!("{:", "<0", "w$e}"), x, w = w),
+        "<+" => format!(concat!("{:", "<+", "w$e}"), x, w = w),
+        "<+0" => format!(concat!("{:", "<+0", "w$e}"), x, w = w),
+        "^" => format!(concat!("{:", "^", "w$e}"), x, w = w),
+        "^0" => format!(concat!("{:", "^0", "w$e}"), x, w = w),
+        "^+" => format!(concat!("{:", "^+", "w$e}"), x, w = w),
+        "^+0" => format!(concat!("{:", "^+0", "w$e}"), x, w = w),
+        ">" => format!(concat!("{:", ">", "w$e}"), x, w = w),
+        ">0" => format!(concat!("{:", ">0", "w$e}"), x, w = w),
+        ">+" => format!(concat!("{:", ">+", "w$e}"), x, w = w),
+        ">+0" => format!(concat!("{:", ">+0", "w$e}"), x, w = w),
+        "*<" => format!(concat!("{:", "*<", "w$e}"), x, w = w),
+        "*<0" => format!(concat!("{:", "*<0", "w$e}"), x, w = w),
+        "*<+" => format!(concat!("{:", "*<+", "w$e}"), x, w = w),
+        "*<+0" => format!(concat!("{:", "*<+0", "w$e}"), x, w = w),
+        "*^" => format!(concat!("{:", "*^", "w$e}"), x, w = w),
+        "*^0" => format!(concat!("{:", "*^0", "w$e}"), x, w = w),
+        "*^+" => format!(concat!("{:", "*^+", "w$e}"), x, w = w),
+        "*^+0" => format!(concat!("{:", "*^+0", "w$e}"), x, w = w),
+        "*>" => format!(concat!("{:", "*>", "w$e}"), x, w = w),
+        "*>0" => format!(concat!("{:", "*>0", "w$e}"), x, w = w),
+        "*>+" => format!(concat!("{:", "*>+", "w$e}"), x, w = w),
+        "*>+0" => format!(concat!("{:", "*>+0", "w$e}"), x, w = w),
+        "0<" => format!(concat!("{:", "0<", "w$e}"), x, w = w),
+        "0<0" => format!(concat!("{:", "0<0", "w$e}"), x, w = w),
+        "0<+" => format!(concat!("{:", "0<+", "w$e}"), x, w = w),
+        "0<+0" => format!(concat!("{:", "0<+0", "w$e}"), x, w = w),
+        "#>" => format!(concat!("{:", "#>", "w$e}"), x, w = w),
+        "#>0" => format!(concat!("{:", "#>0", "w$e}"), x, w = w),
+        "#>+" => format!(concat!("{:", "#>+", "w$e}"), x, w = w),
+        "#>+0" => format!(concat!("{:", "#>+0", "w$e}"), x, w = w),
+        _ => panic!("HARNESS: unknown format flags {}", flags),
+    }
+}
+fn fmt_wpe<T: fmt::Display + fmt::LowerExp + fmt::UpperExp>(flags: &str, x: &T, w: usize, p: usize) -> String {
+    match flags {
+        "" => format!(concat!("{:", "", "w$.p$e}"), x, w = w, p = p),
+        "0" => format!(concat!("{:", "0", "w$.p$e}"), x, w = w, p = p),
+        "+" => format!(concat!("{:", "+", "w$.p$e}"), x, w = w, p = p),
+        "+0" => format!(concat!("{:", "+0", "w$.p$e}"), x, w = w, p = p),
+        "<" => format!(concat!("{:", "<", "w$.p$e}"), x, w = w, p = p),
+        "<0" => format!(concat!("{:", "<0", "w$.p$e}"), x, w = w, p = p),
+        "<+" => format!(concat!("{:", "<+", "w$.p$e}"), x, w = w, p = p),
+        "<+0" => format!(concat!("{:", "<+0", "w$.p$e}"), x, w = w, p = p),
+        "^" => format!(concat!("{:", "^", "w$.p$e}"), x, w = w, p = p),
+        "^0" => format!(concat!("{:", "^0", "w$.p$e}"), x, w = w, p = p),
+        "^+" => format!(concat!("{:", "^+", "w$.p$e}"), x, w = w, p = p),
+        "^+0" => format!(concat!("{:", "^+0", "w$.p$e}"), x, w = w, p = p),
+        ">" => format!(concat!("{:", ">", "w$.p$e}"), x, w = w, p = p),
+        ">0" => format!(concat!("{:", ">0", "w$.p$e}"), x, w = w, p = p),
+        ">+" => format!(concat!("{:", ">+", "w$.p$e}"), x, w = w, p = p),
+        ">+0" => format!(concat!("{:", ">+0", "w$.p$e}"), x, w = w, p = p),
+        "*<" => format!(concat!("{:", "*<", "w$.p$e}"), x, w = w, p = p),
+        "*<0" => format!(concat!("{:", "*<0", "w$.p$e}"), x, w = w, p = p),
+        "*<+" => format!(concat!("{:", "*<+", "w$.p$e}"), x, w = w, p = p),
+        "*<+0" => format!(concat!("{:", "*<+0", "w$.p$e}"), x, w = w, p = p),
+        "*^" => format!(concat!("{:", "*^", "w$.p$e}"), x, w = w, p = p),
+        "*^0" => format!(concat!("{:", "*^0", "w$.p$e}"), x, w = w, p = p),
+        "*^+" => format!(concat!("{:", "*^+", "w$.p$e}"), x, w = w, p = p),
+        "*^+0" => format!(concat!("{:", "*^+0", "w$.p$e}"), x, w = w, p = p),
+        "*>" => format!(concat!("{:", "*>", "w$.p$e}"), x, w = w, p = p),
+        "*>0" => format!(concat!("{:", "*>0", "w$.p$e}"), x, w = w, p = p),
+        "*>+" => format!(concat!("{:", "*>+", "w$.p$e}"), x, w = w, p = p),
+        "*>+0" => format!(concat!("{:", "*>+0", "w$.p$e}"), x, w = w, p = p),
+        "0<" => format!(concat!("{:", "0<", "w$.p$e}"), x, w = w, p = p),
+        "0<0" => format!(concat!("{:", "0<0", "w$.p$e}"), x, w = w, p = p),
+        "0<+" => format!(concat!("{:", "0<+", "w$.p$e}"), x, w = w, p = p),
+        "0<+0" => format!(concat!("{:", "0<+0", "w$.p$e}"), x, w = w, p = p),
+        "#>" => format!(concat!("{:", "#>", "w$.p$e}"), x, w = w, p = p),
+        "#>0" => format!(concat!("{:", "#>0", "w$.p$e}"), x, w = w, p = p),
+        "#>+" => format!(concat!("{:", "#>+", "w$.p$e}"), x, w = w, p = p),
+        "#>+0" => format!(concat!("{:", "#>+0", "w$.p$e}"), x, w = w, p = p),
+        _ => panic!("HARNESS: unknown format flags {}", flags),
+    }
+}
+fn fmt_w_e<T: fmt::Display + fmt::LowerExp + fmt::UpperExp>(flags: &str, x: &T, w: usize) -> String {
+    match flags {
+        "" => format!(concat!("{:", "", "w$E}"), x, w = w),
+        "0" => format!(concat!("{:", "0", "w$E}"), x, w = w),
+        "+" => format!(concat!("{:", "+", "w$E}"), x, w = w),
+        "+0" => format!(concat!("{:", "+0", "w$E}"), x, w = w),
+        "<" => format!(concat!("{:", "<", "w$E}"), x, w = w),
+        "<0" => format!(concat!("{:", "<0", "w$E}"), x, w = w),
+        "<+" => format!(concat!("{:", "<+", "w$E}"), x, w = w),
+        "<+0" => format!(concat!("{:", "<+0", "w$E}"), x, w = w),
+        "^" => format!(concat!("{:", "^", "w$E}"), x, w = w),
+        "^0" => format!(concat!("{:", "^0", "w$E}"), x, w = w),
+        "^+" => format!(concat!("{:", "^+", "w$E}"), x, w = w),
+        "^+0" => format!(concat!("{:", "^+0", "w$E}"), x, w = w),
+        ">" => format!(concat!("{:", ">", "w$E}"), x, w = w),
+        ">0" => format!(concat!("{:", ">0", "w$E}"), x, w = w),
+        ">+" => format!(concat!("{:", ">+", "w$E}"), x, w = w),
+        ">+0" => format!(concat!("{:", ">+0", "w$E}"), x, w = w),
+        "*<" => format!(concat!("{:", "*<", "w$E}"), x, w = w),
+        "*<0" => format!(concat!("{:", "*<0", "w$E}"), x, w = w),
+        "*<+" => format!(concat!("{:", "*<+", "w$E}"), x, w = w),
+        "*<+0" => format!(concat!("{:", "*<+0", "w$E}"), x, w = w),
+        "*^" => format!(concat!("{:", "*^", "w$E}"), x, w = w),
+        "*^0" => format!(concat!("{:", "*^0", "w$E}"), x, w = w),
+        "*^+" => format!(concat!("{:", "*^+", "w$E}"), x, w = w),
+        "*^+0" => format!(concat!("{:", "*^+0", "w$E}"), x, w = w),
+        "*>" => format!(concat!("{:", "*>", "w$E}"), x, w = w),
+        "*>0" => format!(concat!("{:", "*>0", "w$E}"), x, w = w),
+        "*>+" => format!(concat!("{:", "*>+", "w$E}"), x, w = w),
+        "*>+0" => format!(concat!("{:", "*>+0", "w$E}"), x, w = w),
+        "0<" => format!(concat!("{:", "0<", "w$E}"), x, w = w),
+        "0<0" => format!(concat!("{:", "0<0", "w$E}"), x, w = w),
+        "0<+" => format!(concat!("{:", "0<+", "w$E}"), x, w = w),
+        "0<+0" => format!(concat!("{:", "0<+0", "w$E}"), x, w = w),
+        "#>" => format!(concat!("{:", "#>", "w$E}"), x, w = w),
+        "#>0" => format!(concat!("{:", "#>0", "w$E}"), x, w = w),
+        "#>+" => format!(concat!("{:", "#>+", "w$E}"), x, w = w),
+        "#>+0" => format!(concat!("{:", "#>+0", "w$E}"), x, w = w),
+        _ => panic!("HARNESS: unknown format flags {}", flags),
+    }
+}
+fn fmt_wp_e<T: fmt::Display + fmt::LowerExp + fmt::UpperExp>(flags: &str, x: &T, w: usize, p: usize) -> String {
+    match flags {
+        "" => format!(concat!("{:", "", "w$.p$E}"), x, w = w, p = p),
+        "0" => format!(concat!("{:", "0", "w$.p$E}"), x, w = w, p = p),
+        "+" => format!(concat!("{:", "+", "w$.p$E}"), x, w = w, p = p),
+        "+0" => format!(concat!("{:", "+0", "w$.p$E}"), x, w = w, p = p),
+        "<" => format!(concat!("{:", "<", "w$.p$E}"), x, w = w, p = p),
+        "<0" => format!(concat!("{:", "<0", "w$.p$E}"), x, w = w, p = p),
+        "<+" => format!(concat!("{:", "<+", "w$.p$E}"), x, w = w, p = p),
+        "<+0" => format!(concat!("{:", "<+0", "w$.p$E}"), x, w = w, p = p),
+        "^" => format!(concat!("{:", "^", "w$.p$E}"), x, w = w, p = p),
+        "^0" => format!(concat!("{:", "^0", "w$.p$E}"), x, w = w, p = p),
+        "^+" => format!(concat!("{:", "^+", "w$.p$E}"), x, w = w, p = p),
+        "^+0" => format!(concat!("{:", "^+0", "w$.p$E}"), x, w = w, p = p),
+        ">" => format!(concat!("{:", ">", "w$.p$E}"), x, w = w, p = p),
+        ">0" => format!(concat!("{:", ">0", "w$.p$E}"), x, w = w, p = p),
+        ">+" => format!(concat!("{:", ">+", "w$.p$E}"), x, w = w, p = p),
+        ">+0" => format!(concat!("{:", ">+0", "w$.p$E}"), x, w = w, p = p),
+        "*<" => format!(concat!("{:", "*<", "w$.p$E}"), x, w = w, p = p),
+        "*<0" => format!(concat!("{:", "*<0", "w$.p$E}"), x, w = w, p = p),
+        "*<+" => format!(concat!("{:", "*<+", "w$.p$E}"), x, w = w, p = p),
+        "*<+0" => format!(concat!("{:", "*<+0", "w$.p$E}"), x, w = w, p = p),
+        "*^" => format!(concat!("{:", "*^", "w$.p$E}"), x, w = w, p = p),
+        "*^0" => format!(concat!("{:", "*^0", "w$.p$E}"), x, w = w, p = p),
+        "*^+" => format!(concat!("{:", "*^+", "w$.p$E}"), x, w = w, p = p),
+        "*^+0" => format!(concat!("{:", "*^+0", "w$.p$E}"), x, w = w, p = p),
+        "*>" => format!(concat!("{:", "*>", "w$.p$E}"), x, w = w, p = p),
+        "*>0" => format!(concat!("{:", "*>0", "w$.p$E}"), x, w = w, p = p),
+        "*>+" => format!(concat!("{:", "*>+", "w$.p$E}"), x, w = w, p = p),
+        "*>+0" => format!(concat!("{:", "*>+0", "w$.p$E}"), x, w = w, p = p),
+        "0<" => format!(concat!("{:", "0<", "w$.p$E}"), x, w = w, p = p),
+        "0<0" => format!(concat!("{:", "0<0", "w$.p$E}"), x, w = w, p = p),
+        "0<+" => format!(concat!("{:", "0<+", "w$.p$E}"), x, w = w, p = p),
+        "0<+0" => format!(concat!("{:", "0<+0", "w$.p$E}"), x, w = w, p = p),
+        "#>" => format!(concat!("{:", "#>", "w$.p$E}"), x, w = w, p = p),
+        "#>0" => format!(concat!("{:", "#>0", "w$.p$E}"), x, w = w, p = p),
+        "#>+" => format!(concat!("{:", "#>+", "w$.p$E}"), x, w = w, p = p),
+        "#>+0" => format!(concat!("{:", "#>+0", "w$.p$E}"), x, w = w, p = p),
+        _ => panic!("HARNESS: unknown format flags {}", flags),
+    }
+}
+
+fn render<T: fmt::Display + fmt::LowerExp + fmt::UpperExp>(kind: &str, x: &T, n: Option<usize>, flags: Option<(&str, usize)>) -> String {
+    match (kind, n, flags) {
+        ("display", None, None) => format!("{}", x),
+        ("display", Some(p), None) => format!("{:.*}", p, x),
+        ("display", None, Some((f, w))) => fmt_w(f, x, w),
+        ("display", Some(p), Some((f, w))) => fmt_wp(f, x, w, p),
+        ("lowerexp", None, None) => format!("{:e}", x),
+        ("lowerexp", Some(p), None) => format!("{:.p$e}", x, p = p),
+        ("lowerexp", None, Some((f, w))) => fmt_we(f, x, w),
+        ("lowerexp", Some(p), Some((f, w))) => fmt_wpe(f, x, w, p),
+        ("upperexp", None, None) => format!("{:E}", x),
+        ("upperexp", Some(p), None) => format!("{:.p$E}", x, p = p),
+        ("upperexp", None, Some((f, w))) => fmt_w_e(f, x, w),
+        ("upperexp", Some(p), Some((f, w))) => fmt_wp_e(f, x, w, p),
+        _ => panic!("HARNESS: unknown fmt kind {}", kind),
+    }
+}
+
+fn reparse(text: &str) -> Value {
+    match BigDecimal::from_str(text) {
+        Ok(x) => json!({"d": dec_to_json(&x)}),
+        Err(e) => json!({"err": crate::exec4::err_kind(&e)}),
+    }
+}
 
 pub fn exec_more(ev: &Value) -> Value {
     let op = ev["op"].as_str().expect("op");
-    panic!("HARNESS: unknown op {}", op)
+    let form = ev.get("form").and_then(|f| f.as_str()).unwrap_or("");
+    match op {
+        "fmt" => {
+            let a = json_to_dec(&ev["a"]);
+            let kind = ev["kind"].as_str().expect("kind");
+            let n = ev.get("N").and_then(|n| n.as_u64()).map(|n| n as usize);
+            let flags = ev.get("flags").map(|f| (f["f"].as_str().expect("flags.f"), f["w"].as_u64().expect("flags.w") as usize));
+            let text = match (kind, form) {
+                ("sci", "string") => a.to_scientific_notation(),
+                ("sci", "write") => { let mut s = String::new(); a.write_scientific_notation(&mut s).expect("write"); s }
+                ("eng", "string") => a.to_engineering_notation(),
+                ("eng", "write") => { let mut s = String::new(); a.write_engineering_notation(&mut s).expect("write"); s }
+                ("plain", "string") => a.to_plain_string(),
+                ("plain", "write") => { let mut s = String::new(); a.write_plain_string(&mut s).expect("write"); s }
+                (_, "val") => render(kind, &a, n, flags),
+                (_, "dref") => render(kind, &a.to_ref(), n, flags),
+                (_, "to_string") => { assert!(kind == "display" && n.is_none() && flags.is_none()); a.to_string() }
+                _ => panic!("HARNESS: unknown fmt form {}/{}", kind, form),
+            };
+            let mut r = json!({"t": text_to_json(&text), "rp": reparse(&text)});
+            if flags.is_some() {
+                // the same value rendered without width / fill / alignment / sign flags
+                let plain = match form {
+                    "val" => render(kind, &a, n, None),
+                    _ => render(kind, &a.to_ref(), n, None),
+                };
+                r["plain"] = text_to_json(&plain);
+            }
+            r
+        }
+        _ => crate::exec6::exec_more(ev),
+    }
 }
